@@ -1,39 +1,55 @@
 //! C11 — checkpointing is transparent, cleans up after success and survives crashes.
 //!
 //! One request kind (see `lean/IbModel/Driver/D11.lean`):
-//!   CKPT dir=<ok|file> pol=<barrier|every:n|time:s|hybrid:<T|F>:s> max=<none|n> rec=<T|F>
+//!   CKPT dir=<ok|file|empty|rel> pol=<barrier|every:n|time:s|hybrid:<T|F>:s> max=<none|n> rec=<T|F>
 //!        first=<none|full|crash:j|crashb:j>
-//!        mut=<none|trunc:o|flip:i:b|set:hex> add=<names|-> pre=<dir|-> mode=<seq|par:n> canon=.. src <rows> ; steps
+//!        mut=<none|trunc:o|flip:i:b|set:hex> add=<names|-> pre=<dir|-> ty=<ok|wrong> sab=<none|j>
+//!        mode=<seq|par:n|par:none:<s|none>:<d>> canon=.. src <rows> ; steps
 //!   => `[<first outcome> own=<0|+> last=<fields|-> || ]<outcome> rec=<log> own=<0|+> last=<fields|-> other=<names|->`
 //!
 //! A job = a generated pipeline (`pipe.rs` generators; reorder-inert, panic-free; barriers, global combines,
-//! joins) × policy × retention × mode × auto_recover, run by the REAL `Runner { checkpoint_config }` in a scratch
-//! directory:
+//! joins; a share with slice-dependent chunk functions before the first barrier, so that the partition count is
+//! observable; a share that returns `Err` at a node in the middle of the chain) × policy (parameters incl. 0, values
+//! around and far beyond the chain length, intervals up to u64::MAX s) × retention (incl. usize::MAX) × mode (`seq`,
+//! `partitions: Some(n)`, `partitions: None` [+ `threads`]) × auto_recover, run by the REAL
+//! `Runner { checkpoint_config }.run_collect::<T>` in a scratch directory:
 //!   * `dir`   `file`: the configured checkpoint directory path is a REGULAR FILE (`create_dir_all` fails);
-//!   * `pre`   entries placed before anything runs (own-named files with valid / torn / garbage / hostile content,
-//!             look-alike and foreign names; own-named, look-alike and foreign SUB-DIRECTORIES);
+//!             `empty`: the EMPTY path, the current directory being the scratch directory; `rel`: a relative path;
+//!   * `pre`   entries placed before anything runs (own-named files with valid / torn / garbage / hostile content —
+//!             valid records carry edge values in EVERY field, multi-MiB files, a sparse 3 GiB file that cannot be
+//!             read into the child's address space —, look-alike and foreign names; own-named, look-alike and
+//!             foreign SUB-DIRECTORIES);
 //!   * `first` an earlier run of the same pipeline that runs to its end (`full`) or is killed: `crash:j` — step `j`
 //!             is an identity step (`map ident`, or `filter tt` where the rows are grouped, e.g. directly after a
 //!             group_by_key) whose closure panics while armed; `crashb:j` — the closure that panics is the user
 //!             combiner (`add_input`) of the BARRIER step following the identity step `j`, i.e. the panic unwinds out
 //!             of a CombineValues / CombineGlobal node. Caught; whatever files the run wrote stay;
 //!   * `mut`/`add` damage to the newest file the earlier run left / extra foreign files;
+//!   * `ty`    `wrong`: `run_collect::<T>` is asked for an element type the terminal collection does not have;
+//!   * `sab`   `j`: the identity step `j` RENAMES the checkpoint directory away during the run proper: every later
+//!             `save_checkpoint` and the final `clear_checkpoints` fail (the only way to make them fail as uid 0);
 //!   * the run proper.
 //! Every REAL run that faces directory content an undamaged run of the current code did not write itself — the
-//! earlier run over `pre` entries as well as the run proper — happens in a CHILD process
-//! (`ibh child c11 <first|final> …`) with a watchdog and an address-space limit, and so does every call of the real
-//! `load_checkpoint` on such content.
+//! earlier run over `pre` entries as well as the run proper —, every run that needs its own current directory and
+//! every run with an edge policy parameter happens in a CHILD process (`ibh child c11 <first|final> …`) with a
+//! watchdog and an address-space limit, and so does every call of the real `load_checkpoint` on such content.
 //!
 //! Oracles (none goes through the model): the run's result == the result of the same pipeline WITHOUT
-//! checkpointing (and == the plain-vector reference interpreter); after an `Ok` result no file created by this run
-//! or by the earlier run of the same pipeline is left, no new entry exists, and no regular file with a well-formed
-//! checkpoint name of THIS run's pipeline id is left (the id is a hash of the chain length [+ partition count], so
-//! planted files "of an equal-length pipeline" are this id's files by design — Lean `same_length_same_id`);
-//! entries that are not checkpoint files of this pipeline id — foreign files and every sub-directory, own-named ones
-//! included (`remove_file` cannot remove them) — are untouched; the run never panics / aborts / hangs because of
-//! what is in the directory. With `dir=file` (a precondition of the property is violated) the run must either
-//! return the plain result or fail with the set-up error, and leave the path alone.
+//! checkpointing (and == the plain-vector reference interpreter, where that applies); after an `Ok` result no file
+//! created by this run or by the earlier run of the same pipeline is left, no new entry exists, and no regular file
+//! with a well-formed checkpoint name of THIS run's pipeline id is left (the id is a hash of the chain length
+//! [+ partition count], so planted files "of an equal-length pipeline" are this id's files by design — Lean
+//! `same_length_same_id`); entries that are not checkpoint files of this pipeline id — foreign files and every
+//! sub-directory, own-named ones included (`remove_file` cannot remove them) — are untouched; the run never panics /
+//! aborts / hangs because of what is in the directory. With `dir=file` (a precondition of the property is violated)
+//! the run must either return the plain result or fail with the set-up error, and leave the path alone. With `sab`
+//! (the store is taken away) only the result is demanded; what stays is compared with the model.
 //!
+//! NO VERDICT DEPENDS ON WALL-CLOCK LUCK: a HANG / ABORT verdict (watchdog expiry, child killed) is believed only
+//! when the whole job, redone from scratch in a fresh directory, ends the same way; checkpoint-free runs are
+//! re-executed in place; a job during which the wall clock stepped (wall vs monotonic duration) is redone / dropped;
+//! with a wall clock outside 2004..2061 the jobs with planted stamps are skipped; a scratch file system that refuses
+//! a write drops the job. All of these are NOTES in the evidence.
 //! Wall-clock stamps never appear in answers: the listing is reduced to "are there own files" + the decoded record
 //! of the newest one (without timestamp and checksum) + the sorted other names.
 
@@ -47,9 +63,10 @@ use std::collections::{BTreeMap, BTreeSet};
 use std::io::{BufRead, BufReader, Write};
 use std::path::{Path, PathBuf};
 use std::process::{Command, Stdio};
-use std::sync::atomic::{AtomicBool, Ordering};
+use std::sync::Mutex;
+use std::sync::atomic::{AtomicBool, AtomicUsize, Ordering};
 use std::sync::mpsc;
-use std::time::Duration;
+use std::time::{Duration, Instant, SystemTime, UNIX_EPOCH};
 
 /// address-space limit of the child (KiB). Hostile length prefixes are ≥ 2^31, so an unbounded decoder dies.
 const CHILD_AS_LIMIT_KIB: u64 = 1536 * 1024;
@@ -57,6 +74,26 @@ const CHILD_WATCHDOG_S: u64 = 120;   // > 7 x the in-process watchdog of run_onc
 
 /// the injected closure panics only while this is set (first run of a `crash:j` job)
 static ARMED: AtomicBool = AtomicBool::new(false);
+/// `sab:j` jobs: while this holds a path, the first call of the marker closure RENAMES that directory to
+/// `<path>.moved` (once): from then on `File::create` / `read_dir` on the configured path fail
+static SABOTAGE: Mutex<Option<PathBuf>> = Mutex::new(None);
+/// set by `run_once` when the wall clock and the monotonic clock disagree about the duration of a run (a clock step):
+/// the stamps / time policies of that run are not what the scripted clock of the model assumes — the job is redone
+static CLOCK_ANOMALY: AtomicBool = AtomicBool::new(false);
+/// in-process watchdog verdicts that were re-executed (a HANG must be seen twice)
+static HANG_RETRIES: AtomicUsize = AtomicUsize::new(0);
+static HANGS_CONFIRMED: AtomicUsize = AtomicUsize::new(0);
+/// watchdog expiries seen by this process (parent or child)
+static HANGS_SEEN: AtomicUsize = AtomicUsize::new(0);
+/// `default_partitions` of every Runner the harness builds (used when `partitions: None` and no planner suggestion)
+const DEFAULT_PARTS: usize = 3;
+/// files larger than this are listed by size, not by content
+const BIG_LISTING: u64 = 16 << 20;
+/// size of the sparse `BIG` leftover: more than the child's address space
+const BIG_FILE_LEN: u64 = 3 << 30;
+/// the planted stamps assume the wall clock lies strictly between these (ms since the epoch; the model's scripted
+/// clock is 1.7e12): outside the window jobs with planted stamps are skipped (a note), not judged
+const CLOCK_WINDOW_MS: (u64, u64) = (1_100_000_000_000, 2_900_000_000_000);
 
 #[derive(Clone, Copy, Debug, PartialEq)]
 enum Pol {
@@ -99,6 +136,31 @@ const ALL_POLS: &[Pol] = &[
     Pol::Hybrid(false, LONG),
 ];
 const ALL_MAX: &[Option<usize>] = &[None, Some(0), Some(1), Some(3)];
+/// huge intervals ("checkpoint once, never again"): like `LONG`, never due a second time whatever the machine does
+const HUGE_SECS: &[u64] = &[i64::MAX as u64, u64::MAX - 1, u64::MAX];
+/// short intervals: whether a SECOND time-based save happens depends on how long the run takes — only used where no
+/// file can survive the run (a successful run from a directory without own files, no earlier run)
+const SHORT_SECS: &[u64] = &[1, 3600];
+const EXTREME_MAX: &[Option<usize>] = &[None, Some(0), Some(1), Some(usize::MAX)];
+
+/// policies whose PARAMETER is at or beyond an edge; `timing_free`: only those whose saves do not depend on the
+/// duration of the run
+fn extreme_pols(timing_free: bool) -> Vec<Pol> {
+    let mut v: Vec<Pol> = [4usize, 5, 6, 7, usize::MAX - 1, usize::MAX].iter().map(|n| Pol::Every(*n)).collect();
+    for s in HUGE_SECS {
+        v.push(Pol::Time(*s));
+        v.push(Pol::Hybrid(true, *s));
+        v.push(Pol::Hybrid(false, *s));
+    }
+    if !timing_free {
+        for s in SHORT_SECS {
+            v.push(Pol::Time(*s));
+            v.push(Pol::Hybrid(true, *s));
+            v.push(Pol::Hybrid(false, *s));
+        }
+    }
+    v
+}
 
 /// is there a checkpoint configuration, and is it enabled
 #[derive(Clone, Copy, Debug, PartialEq)]
@@ -125,6 +187,23 @@ enum DirKind {
     Ok,
     /// a regular file: `create_dir_all` fails
     File,
+    /// `PathBuf::new()`, the process' current directory being the scratch directory (child process only)
+    Empty,
+    /// a relative path, the current directory being the scratch root (child process only)
+    Rel,
+}
+impl DirKind {
+    fn enc(&self) -> &'static str {
+        match self {
+            DirKind::Ok => "ok",
+            DirKind::File => "file",
+            DirKind::Empty => "empty",
+            DirKind::Rel => "rel",
+        }
+    }
+    fn needs_cwd(&self) -> bool {
+        matches!(self, DirKind::Empty | DirKind::Rel)
+    }
 }
 const FILE_AS_DIR_CONTENT: &[u8] = b"this path is a regular file, not a directory\n";
 #[derive(Clone, Debug, PartialEq)]
@@ -162,9 +241,27 @@ impl Mu {
 /// content of a pre-placed own-named file
 #[derive(Clone, Debug)]
 enum Content {
-    /// a genuine record of this pipeline id with this stamp (written by the real `save_checkpoint`), then damaged
-    Valid { idx: usize, total: usize, mu: Mu },
+    /// a genuine record of this pipeline id with this stamp (written by the real `save_checkpoint`; the checksum is
+    /// the right one for the protected fields), then damaged
+    Valid { idx: usize, total: usize, rest: Rest, mu: Mu },
     Raw(Vec<u8>),
+    /// `n` times one byte (request token `REP<hh>x<n>`)
+    Rep(u8, usize),
+    /// a sparse file of `BIG_FILE_LEN` bytes (request token `BIG`): cannot be read into the child's address space
+    Big,
+}
+/// the fields of a planted record the earlier generators kept constant
+#[derive(Clone, Debug, PartialEq)]
+struct Rest {
+    pc: usize,
+    em: String,
+    lnt: String,
+    pp: u8,
+}
+impl Rest {
+    fn plain() -> Rest {
+        Rest { pc: 1, em: "sequential".into(), lnt: "Stateless".into(), pp: 50 }
+    }
 }
 #[derive(Clone, Debug)]
 enum PreFile {
@@ -191,15 +288,52 @@ struct Job {
     pre: Vec<PreFile>,
     dirkind: DirKind,
     tag: &'static str,
+    /// `ExecMode::Parallel { partitions: None }`: the count comes from the planner's suggestion, else DEFAULT_PARTS
+    /// (`mode` must be `Par(_)`; its number is ignored)
+    parts_none: bool,
+    /// `ExecMode::Parallel { threads }`
+    threads: Option<usize>,
+    /// `run_collect::<T>` with a `T` the terminal collection does not have
+    wrong_t: bool,
+    /// step index of an identity marker whose closure renames the checkpoint directory away during the run proper
+    sab: Option<usize>,
+    /// run every real run of this job in the watchdog child even if the directory content is benign
+    force_child: bool,
 }
 impl Job {
-    /// anything in the directory that an undamaged run of the current code did not write itself?
+    /// anything in the directory that an undamaged run of the current code did not write itself (or a run that needs
+    /// its own current directory / was asked to run in the child)?
     fn needs_child(&self) -> bool {
-        !self.pre.is_empty() || self.mu != Mu::None
+        !self.pre.is_empty() || self.mu != Mu::None || self.dirkind.needs_cwd() || self.force_child
     }
     /// does the EARLIER run already face such content?
     fn first_in_child(&self) -> bool {
-        self.first != First::None && !self.pre.is_empty()
+        self.first != First::None && (!self.pre.is_empty() || self.dirkind.needs_cwd() || self.force_child)
+    }
+    fn has_big(&self) -> bool {
+        self.pre.iter().any(|f| matches!(f, PreFile::Own(_, Content::Big)))
+    }
+    fn has_planted_stamp(&self) -> bool {
+        self.pre.iter().any(|f| matches!(f, PreFile::Own(..) | PreFile::OwnDir(_)))
+    }
+    /// the identity step carrying the special closure, if any
+    fn marker(&self) -> Option<usize> {
+        match self.first {
+            First::Crash(m) => Some(m),
+            _ => self.sab,
+        }
+    }
+    /// a slice-dependent chunk function anywhere — in the main chain or inside a join's right side (its own chain,
+    /// partitioned like the main one in parallel mode)
+    fn has_nonlocal(&self) -> bool {
+        fn any(steps: &[Step]) -> bool {
+            steps.iter().any(|s| match s {
+                Step::MapBatches(_, f) | Step::MapValuesBatches(_, f) => !f.elementwise(),
+                Step::Join(_, r) => any(&r.steps),
+                _ => false,
+            })
+        }
+        any(&self.prog.steps)
     }
 }
 
@@ -215,6 +349,23 @@ fn trip() {
     if ARMED.load(Ordering::SeqCst) {
         panic!("injected crash");
     }
+    // `sab:j`: take the checkpoint directory away (once), keeping its content under another name
+    if let Ok(mut g) = SABOTAGE.try_lock() {
+        if let Some(d) = g.take() {
+            let _ = std::fs::rename(&d, moved_path(&d));
+        }
+    }
+}
+/// where a sabotaged checkpoint directory is renamed to
+fn moved_path(dir: &Path) -> PathBuf {
+    let mut n = dir.file_name().map(|x| x.to_os_string()).unwrap_or_default();
+    n.push(".moved");
+    dir.with_file_name(n)
+}
+/// the directory holding what the checkpoint directory held (itself, or where the sabotage moved it)
+fn effective_dir(dir: &Path) -> PathBuf {
+    let m = moved_path(dir);
+    if !dir.exists() && m.is_dir() { m } else { dir.to_path_buf() }
 }
 /// the identity step `s` (`map ident` / `filter tt`) with a closure that panics while `ARMED`
 fn apply_marker(c: Coll, s: &Step) -> Coll {
@@ -287,12 +438,14 @@ fn apply_trip_barrier(c: Coll, s: &Step) -> Coll {
     }
 }
 
-fn build_marked(p: &Pipeline, prog: &Prog, first: &First) -> Coll {
+fn build_marked(p: &Pipeline, job: &Job) -> Coll {
+    let prog = &job.prog;
     // `pipe::build` on the step-less program sets the harness' current-pipeline slot and yields the source
     let mut c = pipe::build(p, &Prog { shape: prog.shape, src: prog.src.clone(), steps: vec![] });
+    let marker = job.marker();
     for (j, s) in prog.steps.iter().enumerate() {
-        c = match first {
-            First::Crash(m) if *m == j => apply_marker(c, s),
+        c = match &job.first {
+            _ if marker == Some(j) => apply_marker(c, s),
             First::CrashBarrier { barrier, .. } if *barrier == j => apply_trip_barrier(c, s),
             _ => pipe::apply_step(c, s),
         };
@@ -309,7 +462,16 @@ fn terminal_id(c: &Coll) -> ironbeam::NodeId {
     }
 }
 
-fn collect_with(runner: &Runner, p: &Pipeline, c: Coll) -> anyhow::Result<Vec<V>> {
+fn collect_with(runner: &Runner, p: &Pipeline, c: Coll, wrong_t: bool) -> anyhow::Result<Vec<V>> {
+    if wrong_t {
+        // ask for an element type the terminal collection does not have
+        return Ok(match c {
+            Coll::T(x) => runner.run_collect::<(V, V)>(p, x.node_id())?.iter().map(row_kv).collect(),
+            Coll::KV(x) => runner.run_collect::<V>(p, x.node_id())?,
+            Coll::KG(x) => runner.run_collect::<(V, V)>(p, x.node_id())?.iter().map(row_kv).collect(),
+            Coll::R(x) => runner.run_collect::<V>(p, x.node_id())?,
+        });
+    }
     Ok(match c {
         Coll::T(x) => runner.run_collect::<V>(p, x.node_id())?,
         Coll::KV(x) => runner.run_collect::<(V, V)>(p, x.node_id())?.iter().map(row_kv).collect(),
@@ -318,45 +480,110 @@ fn collect_with(runner: &Runner, p: &Pipeline, c: Coll) -> anyhow::Result<Vec<V>
     })
 }
 
-fn exec_mode(m: Mode) -> ExecMode {
-    match m {
+fn exec_mode(job: &Job) -> ExecMode {
+    match job.mode {
         Mode::Seq => ExecMode::Sequential,
-        Mode::Par(n) => ExecMode::Parallel { threads: None, partitions: Some(n) },
+        Mode::Par(n) => ExecMode::Parallel { threads: job.threads, partitions: if job.parts_none { None } else { Some(n) } },
+    }
+}
+
+/// the path to put into `CheckpointConfig::directory` for the scratch directory `dir`; `dir=empty` / `dir=rel` jobs
+/// switch the current directory of the (child) process
+fn config_dir(job: &Job, dir: &Path) -> PathBuf {
+    match job.dirkind {
+        DirKind::Ok | DirKind::File => dir.to_path_buf(),
+        DirKind::Empty => {
+            let _ = std::env::set_current_dir(dir);
+            PathBuf::new()
+        }
+        DirKind::Rel => {
+            if let Some(parent) = dir.parent() {
+                let _ = std::env::set_current_dir(parent);
+            }
+            PathBuf::from(dir.file_name().unwrap_or_default())
+        }
     }
 }
 
 fn ckpt_config(job: &Job, dir: &Path) -> CheckpointConfig {
     CheckpointConfig {
         enabled: job.en == En::On,
-        directory: dir.to_path_buf(),
+        directory: config_dir(job, dir),
         policy: job.pol.real(),
         auto_recover: job.rec,
         max_checkpoints: job.max,
     }
 }
 
-/// one REAL run; `dir = None`: without checkpointing
-fn run_once(job: &Job, dir: Option<&Path>, armed: bool) -> Outcome {
-    let job = job.clone();
-    let dir = dir.map(Path::to_path_buf);
-    ARMED.store(armed, Ordering::SeqCst);
-    let r = pipe::with_watchdog(10, move || {
+#[derive(Clone, Copy, PartialEq)]
+enum Arm {
+    No,
+    /// the marker / barrier closure panics
+    Crash,
+    /// the marker closure renames the checkpoint directory away
+    Sabotage,
+}
+
+fn run_once_raw(job: &Job, dir: Option<&Path>, arm: Arm, secs: u64) -> Outcome {
+    let job2 = job.clone();
+    let dir2 = dir.map(Path::to_path_buf);
+    ARMED.store(arm == Arm::Crash, Ordering::SeqCst);
+    *SABOTAGE.lock().unwrap_or_else(|e| e.into_inner()) = if arm == Arm::Sabotage { dir2.clone() } else { None };
+    let (w0, m0) = (SystemTime::now(), Instant::now());
+    let r = pipe::with_watchdog(secs, move || {
         let p = Pipeline::default();
-        let c = build_marked(&p, &job.prog, &job.first);
+        let c = build_marked(&p, &job2);
         let runner = Runner {
-            mode: exec_mode(job.mode),
-            checkpoint_config: if job.en == En::NoCfg { None } else { dir.as_ref().map(|d| ckpt_config(&job, d)) },
-            ..Default::default()
+            mode: exec_mode(&job2),
+            default_partitions: DEFAULT_PARTS,
+            checkpoint_config: if job2.en == En::NoCfg { None } else { dir2.as_ref().map(|d| ckpt_config(&job2, d)) },
         };
-        collect_with(&runner, &p, c)
+        collect_with(&runner, &p, c, job2.wrong_t)
     });
+    let (w1, m1) = (SystemTime::now(), Instant::now());
     ARMED.store(false, Ordering::SeqCst);
+    *SABOTAGE.lock().unwrap_or_else(|e| e.into_inner()) = None;
+    // a wall-clock step during the run (the two clocks disagree about its duration by more than 100 ms)
+    let mono = m1.duration_since(m0).as_secs_f64();
+    let wall = match w1.duration_since(w0) {
+        Ok(d) => d.as_secs_f64(),
+        Err(e) => -e.duration().as_secs_f64(),
+    };
+    if (wall - mono).abs() > 0.1 {
+        CLOCK_ANOMALY.store(true, Ordering::SeqCst);
+    }
     match r {
         None => Outcome::Hang,
         Some(Err(msg)) => Outcome::Panic(msg),
         Some(Ok(Err(e))) => Outcome::Err(format!("{e:#}")),
         Some(Ok(Ok(rows))) => Outcome::Rows(rows),
     }
+}
+
+/// one REAL run; `dir = None`: without checkpointing. The in-process watchdog (10 s + 60 s grace) only says that the
+/// run did not come back in time; runs WITHOUT a directory are simply re-executed (twice, with 20 s + 120 s) before
+/// HANG is believed. Runs WITH a directory cannot be repeated in place (the first attempt may have written files):
+/// their HANG is passed on and the whole job is redone in a fresh directory by `run` (`execute` / retry pass).
+fn run_once(job: &Job, dir: Option<&Path>, arm: Arm) -> Outcome {
+    // after three expiries in this process the runs that follow get 3 s + 18 s: a real non-terminating engine is
+    // established by then, and every further expiry would cost 70 s (verdicts are still confirmed by re-execution)
+    let secs = if HANGS_SEEN.load(Ordering::SeqCst) >= 3 { 3 } else { 10 };
+    let mut out = run_once_raw(job, dir, arm, secs);
+    if out == Outcome::Hang {
+        HANGS_SEEN.fetch_add(1, Ordering::SeqCst);
+    }
+    if dir.is_none() {
+        let mut tries = 0;
+        while out == Outcome::Hang && tries < 2 && HANGS_CONFIRMED.load(Ordering::SeqCst) < 3 {
+            tries += 1;
+            HANG_RETRIES.fetch_add(1, Ordering::SeqCst);
+            out = run_once_raw(job, None, arm, 20);
+        }
+        if out == Outcome::Hang {
+            HANGS_CONFIRMED.fetch_add(1, Ordering::SeqCst);
+        }
+    }
+    out
 }
 
 /// canonical answer of a run; the two set-up errors of the checkpointing engines get their own classes
@@ -368,30 +595,52 @@ fn answer(o: &Outcome, canon: &str) -> String {
     }
 }
 
-/// chain length after planning (the real planner), and from it this run's pipeline id as the code derives it
-fn pipeline_id(job: &Job) -> Option<(usize, String)> {
+/// what the harness needs to know about the planned job
+#[derive(Clone, Debug)]
+struct PlanInfo {
+    /// chain length after planning (the real planner)
+    len: usize,
+    /// this run's pipeline id as the code derives it — from the chain length and, in parallel mode, the partition
+    /// count the SPECIFICATION of `run_collect` resolves (`partitions.or(suggested).unwrap_or(default)`)
+    pid: String,
+    /// the `mode=` token of the request
+    mode_tok: String,
+}
+
+fn plan_info(job: &Job) -> Option<PlanInfo> {
     let job2 = job.clone();
-    let len = guarded(move || {
+    let (len, sugg) = guarded(move || {
         let p = Pipeline::default();
-        let c = build_marked(&p, &job2.prog, &job2.first);
-        ironbeam::planner::build_plan(&p, terminal_id(&c)).map(|pl| pl.chain.len())
+        let c = build_marked(&p, &job2);
+        ironbeam::planner::build_plan(&p, terminal_id(&c)).map(|pl| (pl.chain.len(), pl.suggested_partitions))
     })
     .ok()?
     .ok()?;
-    let key = match job.mode {
-        Mode::Seq => format!("{len}"),
-        Mode::Par(n) => format!("{len}:{n}"),
+    let (key, mode_tok) = match job.mode {
+        Mode::Seq => (format!("{len}"), "seq".to_string()),
+        Mode::Par(n) if !job.parts_none => (format!("{len}:{n}"), format!("par:{n}")),
+        Mode::Par(_) => {
+            let n = sugg.unwrap_or(DEFAULT_PARTS);
+            (format!("{len}:{n}"), format!("par:none:{}:{DEFAULT_PARTS}", sugg.map_or("none".to_string(), |s| s.to_string())))
+        }
     };
-    Some((len, compute_checksum(key.as_bytes())[..16].to_string()))
+    Some(PlanInfo { len, pid: compute_checksum(key.as_bytes())[..16].to_string(), mode_tok })
 }
 
 // ───────────────────────────── directory helpers ─────────────────────────────
 
+/// scratch root: `/dev/shm` when a probe write of 64 MiB succeeds there (it may be full: other checks run on this
+/// machine), else the system temp directory
 fn tmproot() -> tempfile::TempDir {
     let shm = Path::new("/dev/shm");
     if shm.is_dir() {
         if let Ok(t) = tempfile::tempdir_in(shm) {
-            return t;
+            let probe = t.path().join("probe");
+            let ok = std::fs::write(&probe, vec![1u8; 64 << 20]).is_ok();
+            let _ = std::fs::remove_file(&probe);
+            if ok {
+                return t;
+            }
         }
     }
     tempfile::tempdir().expect("tempdir")
@@ -401,12 +650,14 @@ fn tmproot() -> tempfile::TempDir {
 #[derive(Clone, Debug, PartialEq)]
 enum Ent {
     File(Vec<u8>),
+    /// a regular file larger than `BIG_LISTING`: its length only
+    BigFile(u64),
     /// a sub-directory, with the sorted names inside it
     Dir(Vec<String>),
 }
 impl Ent {
     fn is_file(&self) -> bool {
-        matches!(self, Ent::File(_))
+        matches!(self, Ent::File(_) | Ent::BigFile(_))
     }
 }
 
@@ -422,7 +673,10 @@ fn listing(dir: &Path) -> BTreeMap<String, Ent> {
                     inner.sort();
                     Ent::Dir(inner)
                 } else {
-                    Ent::File(std::fs::read(e.path()).unwrap_or_default())
+                    match e.metadata().map(|m| m.len()) {
+                        Ok(l) if l > BIG_LISTING => Ent::BigFile(l),
+                        _ => Ent::File(std::fs::read(e.path()).unwrap_or_default()),
+                    }
                 };
                 m.insert(n.to_string(), ent);
             }
@@ -524,6 +778,16 @@ fn rec_probe(job: &Job, pid: &str, dir: &Path) -> String {
     if job.dirkind == DirKind::File {
         return "-".into();
     }
+    if job.has_big() {
+        // the class of the error on a file that cannot be read into memory is not part of the answer (it depends on
+        // how `load_checkpoint` bounds its read); the probe is still executed: it must not kill the process
+        let _ = guarded(|| {
+            let m = probe_manager(dir)?;
+            let latest = m.find_latest_checkpoint(pid).ok()?;
+            Some(latest.map(|p| m.load_checkpoint(&p).is_ok()))
+        });
+        return "*".into();
+    }
     let r = guarded(|| {
         let m = probe_manager(dir)?;
         let latest = m.find_latest_checkpoint(pid).ok()?;
@@ -551,17 +815,18 @@ fn run_final(job: &Job, pid: &str, dir: &Path) -> String {
         }
         _ => rec_probe(job, pid, dir),
     };
-    let out = run_once(job, Some(dir), false);
+    let out = run_once(job, Some(dir), if job.sab.is_some() { Arm::Sabotage } else { Arm::No });
     let ans = answer(&out, job.prog.canon());
     let rec = if ans.starts_with("ERR ckpt-") { "-".to_string() } else { rec };
-    format!("{ans} rec={rec} {} other={}", own_str(pid, dir), other_str(pid, dir))
+    let eff = effective_dir(dir);
+    format!("{ans} rec={rec} {} other={}", own_str(pid, &eff), other_str(pid, &eff))
 }
 
 /// `<outcome> own=.. last=..` of the EARLIER run of `job` in `dir`. A panic of an armed run that is not the injected
 /// one is reported as `PANIC-NOT-INJECTED`.
 fn run_first(job: &Job, pid: &str, dir: &Path) -> String {
     let armed = matches!(job.first, First::Crash(_) | First::CrashBarrier { .. });
-    let out = run_once(job, Some(dir), armed);
+    let out = run_once(job, Some(dir), if armed { Arm::Crash } else { Arm::No });
     let a = match &out {
         Outcome::Panic(msg) if armed && !msg.contains("injected crash") => "PANIC-NOT-INJECTED".to_string(),
         _ => answer(&out, job.prog.canon()),
@@ -666,9 +931,10 @@ fn gen_pre(rng: &mut Rng) -> Vec<PreFile> {
             continue;
         }
         stamps.push(st);
-        let content = match rng.below(3) {
-            0 => Content::Valid { idx: rng.below(6), total: rng.below(9), mu: Mu::None },
-            1 => Content::Valid { idx: rng.below(6), total: 1 + rng.below(8), mu: gen_mu(rng) },
+        let content = match rng.below(4) {
+            0 => Content::Valid { idx: rng.below(6), total: rng.below(9), rest: Rest::plain(), mu: Mu::None },
+            1 => Content::Valid { idx: rng.below(6), total: 1 + rng.below(8), rest: Rest::plain(), mu: gen_mu(rng) },
+            2 => Content::Valid { idx: gen_usize_edge(rng), total: gen_usize_edge(rng), rest: gen_rest(rng), mu: Mu::None },
             _ => Content::Raw(gen_garbage(rng)),
         };
         pre.push(PreFile::Own(st, content));
@@ -698,6 +964,41 @@ fn gen_pre(rng: &mut Rng) -> Vec<PreFile> {
         }
     }
     pre
+}
+
+/// a `usize` field of a VALID record: small, or at an edge of the range
+fn gen_usize_edge(rng: &mut Rng) -> usize {
+    match rng.below(8) {
+        0 | 1 | 2 => rng.below(9),
+        3 => 100,
+        4 => 251,
+        5 => u32::MAX as usize,
+        6 => usize::MAX - 1,
+        _ => usize::MAX,
+    }
+}
+
+/// the fields of a valid record that no checksum protects (`exec_mode`, `last_node_type`, `progress_percent`) and
+/// the partition count: anything a record can legally hold
+fn gen_rest(rng: &mut Rng) -> Rest {
+    let em = match rng.below(6) {
+        0 => "sequential".to_string(),
+        1 => format!("parallel:{}", gen_usize_edge(rng)),
+        2 => String::new(),
+        3 => "junk \u{e9}\u{4e16}".to_string(),
+        4 => "x".repeat(300),
+        _ => "parallel:".to_string(),
+    };
+    let lnt = match rng.below(6) {
+        0 => "Stateless".to_string(),
+        1 => "Failed".to_string(),
+        2 => String::new(),
+        3 => "CoGroup".to_string(),
+        4 => "\u{1f600}".repeat(70),
+        _ => "no such node".to_string(),
+    };
+    let pp = *rng.pick(&[0u8, 1, 50, 99, 100, 101, 127, 128, 200, 254, 255]);
+    Rest { pc: gen_usize_edge(rng), em, lnt, pp }
 }
 
 fn gen_add(rng: &mut Rng) -> Vec<String> {
@@ -779,8 +1080,27 @@ fn rows_at(prog: &Prog, j: usize) -> Option<usize> {
     }
 }
 
+/// slice-dependent chunk functions (`rev`, `sumall`) only BEFORE the first barrier: behind a barrier the row order is
+/// the hash map's, and a function that looks across its slice would make two correct runs differ. (The generator
+/// observes this; inserting a barrier in front of such a step — the barrier-crash jobs — would break it.)
+fn nonlocal_before_barriers_only(prog: &Prog) -> bool {
+    let mut after_barrier = false;
+    for s in &prog.steps {
+        if after_barrier && matches!(s, Step::MapBatches(_, f) | Step::MapValuesBatches(_, f) if !f.elementwise()) {
+            return false;
+        }
+        if let Step::Join(_, r) = s {
+            if !nonlocal_before_barriers_only(r) {
+                return false;
+            }
+        }
+        after_barrier |= s.is_barrier();
+    }
+    true
+}
+
 fn usable(prog: &Prog) -> bool {
-    pipe::reorder_inert(prog) && matches!(pipe::reference(prog), RefOut::Rows(_))
+    pipe::reorder_inert(prog) && nonlocal_before_barriers_only(prog) && matches!(pipe::reference(prog), RefOut::Rows(_))
 }
 
 fn gen_usable_prog(rng: &mut Rng, o: &GenOpts) -> Prog {
@@ -858,8 +1178,60 @@ fn fixed_progs() -> Vec<Prog> {
     ]
 }
 
+/// programs whose chunk functions look across their slice BEFORE the first barrier: the result depends on how the
+/// source was partitioned (by design), so the partition count handed to `exec_par` is observable
+fn nonlocal_progs() -> Vec<Prog> {
+    vec![
+        Prog { shape: Shape::T, src: (1..=7).map(V::I).collect(), steps: vec![Step::MapBatches(3, pipe::BatchFn::Rev)] },
+        Prog { shape: Shape::T, src: (1..=9).map(V::I).collect(), steps: vec![Step::MapBatches(2, pipe::BatchFn::Sumall), Step::Map(Fn_::Add(1))] },
+        Prog { shape: Shape::KV, src: kv_rows(&[(1, 10), (2, 20), (1, 30), (3, 5), (2, 7), (1, 1), (3, 9)]), steps: vec![Step::MapValuesBatches(2, pipe::BatchFn::Rev)] },
+        Prog { shape: Shape::T, src: (1..=8).map(V::I).collect(), steps: vec![Step::MapBatches(3, pipe::BatchFn::Sumall), Step::KeyBy(pipe::KeyFn::Kmod(2)), Step::Gbk, Step::Glen] },
+    ]
+}
+
+/// programs that return `Err` at a node in the MIDDLE of the chain (a join whose right side contains a join), with
+/// barriers before and after it
+fn err_mid_progs() -> Vec<Prog> {
+    let right = Prog { shape: Shape::KV, src: kv_rows(&[(1, 100), (3, 300), (1, 101)]), steps: vec![Step::MapValues(Fn_::Add(1))] };
+    let nested = Prog { shape: Shape::KV, src: kv_rows(&[(1, 7)]), steps: vec![Step::Join(JoinKind::Inner, Box::new(right))] };
+    vec![
+        Prog { shape: Shape::KV, src: kv_rows(&[(1, 10), (2, 20), (1, 5)]), steps: vec![Step::MapValues(Fn_::Add(1)), Step::Gbk, Step::Gsum, Step::Join(JoinKind::Inner, Box::new(nested.clone())), Step::MapValues(Fn_::Len), Step::Gbk, Step::Glen] },
+        Prog { shape: Shape::KV, src: kv_rows(&[(1, 10), (2, 20)]), steps: vec![Step::Join(JoinKind::Left, Box::new(nested.clone())), Step::MapValues(Fn_::Len), Step::CombineValues(Comb::Count)] },
+    ]
+}
+
+/// `prog` with a join whose right side contains a join inserted at a random position where the rows are pairs
+fn with_err_mid(rng: &mut Rng, prog: &Prog) -> Option<Prog> {
+    let shapes = shapes_along(prog);
+    let cands: Vec<usize> = (0..=prog.steps.len()).filter(|i| shapes[*i] == Shape::KV).collect();
+    if cands.is_empty() {
+        return None;
+    }
+    let pos = *rng.pick(&cands);
+    let right = Prog { shape: Shape::KV, src: kv_rows(&[(1, 100), (0, 3)]), steps: vec![] };
+    let nested = Prog { shape: Shape::KV, src: kv_rows(&[(1, 7), (0, 1)]), steps: vec![Step::Join(JoinKind::Inner, Box::new(right))] };
+    let mut steps = prog.steps[..pos].to_vec();
+    steps.push(Step::Join(*rng.pick(&[JoinKind::Inner, JoinKind::Left, JoinKind::Full]), Box::new(nested)));
+    // what follows the failing node never runs; keep it legal
+    let mut sh = pipe::shape_after(Shape::KV, steps.last().unwrap())?;
+    for st in &prog.steps[pos..] {
+        match pipe::shape_after(sh, st) {
+            Some(n) => {
+                sh = n;
+                steps.push(st.clone());
+            }
+            None => break,
+        }
+    }
+    let p2 = Prog { shape: prog.shape, src: prog.src.clone(), steps };
+    (pipe::reorder_inert(&p2) && pipe::reference(&p2) == RefOut::NestedJoin).then_some(p2)
+}
+
 fn base_job(prog: Prog, mode: Mode, pol: Pol, max: Option<usize>, tag: &'static str) -> Job {
-    Job { prog, mode, pol, en: En::On, max, rec: true, first: First::None, mu: Mu::None, add: vec![], pre: vec![], dirkind: DirKind::Ok, tag }
+    Job {
+        prog, mode, pol, en: En::On, max, rec: true, first: First::None, mu: Mu::None, add: vec![], pre: vec![], dirkind: DirKind::Ok, tag,
+        parts_none: false, threads: None, wrong_t: false, sab: None, force_child: false,
+    }
 }
 
 /// The whole job list of a run — a pure function of (seed, tier), so that the child process rebuilds it.
@@ -898,13 +1270,13 @@ fn plan_jobs(rng: &mut Rng, tier: Tier, blocks: &mut Vec<String>) -> Vec<Job> {
         jobs.push(j);
         // files of ANOTHER pipeline with the same chain length (same id): found, ignored for the result, cleared
         let mut j = base_job(fixed[0].clone(), Mode::Seq, Pol::Barrier, None, "corpus:equal-length-pipeline");
-        j.pre = vec![PreFile::Own(1000, Content::Valid { idx: 1, total: 2, mu: Mu::None })];
+        j.pre = vec![PreFile::Own(1000, Content::Valid { idx: 1, total: 2, rest: Rest::plain(), mu: Mu::None })];
         jobs.push(j);
         // a leftover whose UN-checksummed metadata is degenerate (total_nodes = 0, index beyond the total): it
         // passes the integrity check and reaches the recovery log
         for (mode, idx, total) in [(Mode::Seq, 0usize, 0usize), (Mode::Par(2), 3, 0), (Mode::Seq, 9, 1)] {
             let mut j = base_job(fixed[1].clone(), mode, Pol::Barrier, Some(1), "corpus:degenerate-metadata");
-            j.pre = vec![PreFile::Own(1000, Content::Valid { idx, total, mu: Mu::None })];
+            j.pre = vec![PreFile::Own(1000, Content::Valid { idx, total, rest: Rest::plain(), mu: Mu::None })];
             jobs.push(j);
         }
     }
@@ -919,7 +1291,7 @@ fn plan_jobs(rng: &mut Rng, tier: Tier, blocks: &mut Vec<String>) -> Vec<Job> {
                     let mut j = base_job(prog.clone(), mode, pol, max, "corpus:own-named-subdirectory");
                     j.pre = vec![PreFile::OwnDir(stamp)];
                     if with_file {
-                        j.pre.push(PreFile::Own(1000, Content::Valid { idx: 1, total: 4, mu: Mu::None }));
+                        j.pre.push(PreFile::Own(1000, Content::Valid { idx: 1, total: 4, rest: Rest::plain(), mu: Mu::None }));
                     }
                     jobs.push(j);
                 }
@@ -969,8 +1341,198 @@ fn plan_jobs(rng: &mut Rng, tier: Tier, blocks: &mut Vec<String>) -> Vec<Job> {
     for (en, mode) in [(En::Off, Mode::Seq), (En::Off, Mode::Par(2)), (En::NoCfg, Mode::Seq), (En::NoCfg, Mode::Par(3))] {
         let mut j = base_job(fixed[1].clone(), mode, Pol::Every(1), Some(1), "corpus:not-enabled");
         j.en = en;
-        j.pre = vec![PreFile::Own(5, Content::Valid { idx: 1, total: 4, mu: Mu::None }), PreFile::Named("notes.txt".into(), vec![1, 2, 3])];
+        j.pre = vec![PreFile::Own(5, Content::Valid { idx: 1, total: 4, rest: Rest::plain(), mu: Mu::None }), PreFile::Named("notes.txt".into(), vec![1, 2, 3])];
         jobs.push(j);
+    }
+
+    // (1e) leftovers that are VALID records (right checksum) with anything a record can legally hold in the fields
+    //      the recovery block may look at: progress_percent 0..=255, indices / totals up to usize::MAX, any
+    //      partition count, any exec_mode / last_node_type string
+    {
+        let n0 = jobs.len();
+        for pp in [0u8, 100, 101, 127, 128, 200, 255] {
+            for (prog, mode) in [(fixed[1].clone(), Mode::Seq), (fixed[1].clone(), Mode::Par(2))] {
+                let mut j = base_job(prog, mode, Pol::Barrier, Some(1), "corpus:valid-leftover-any-fields");
+                let rest = Rest { pc: 1, em: "sequential".into(), lnt: "Stateless".into(), pp };
+                j.pre = vec![PreFile::Own(1000, Content::Valid { idx: 2, total: 4, rest, mu: Mu::None })];
+                jobs.push(j);
+            }
+        }
+        for (idx, total, pc) in [(usize::MAX, usize::MAX, usize::MAX), (usize::MAX, 0, 0), (0, usize::MAX, 1), (7, 3, usize::MAX - 1), (u32::MAX as usize, 251, 65536)] {
+            for (prog, mode) in [(fixed[1].clone(), Mode::Seq), (fixed[3].clone(), Mode::Par(3))] {
+                let mut j = base_job(prog, mode, Pol::Every(1), None, "corpus:valid-leftover-any-fields");
+                let rest = Rest { pc, em: format!("parallel:{pc}"), lnt: "Failed".into(), pp: 255 };
+                j.pre = vec![PreFile::Own(999_999_999_999, Content::Valid { idx, total, rest, mu: Mu::None })];
+                jobs.push(j);
+            }
+        }
+        for _ in 0..budget(12, 200) {
+            let (prog, mode) = if rng.chance(1, 2) { (fixed[1].clone(), Mode::Seq) } else { (fixed[4].clone(), Mode::Par(2)) };
+            let mut j = base_job(prog, mode, *rng.pick(ALL_POLS), *rng.pick(ALL_MAX), "corpus:valid-leftover-any-fields");
+            j.pre = vec![PreFile::Own(*rng.pick(STAMPS), Content::Valid { idx: gen_usize_edge(rng), total: gen_usize_edge(rng), rest: gen_rest(rng), mu: Mu::None })];
+            jobs.push(j);
+        }
+        blocks.push(format!("leftover files that are VALID records with edge values in every field (progress_percent 0..255, idx/total/partition_count up to usize::MAX, arbitrary exec_mode / last_node_type strings) = {} jobs", jobs.len() - n0));
+    }
+    // (1f) LARGE leftovers: a sparse {BIG_FILE_LEN}-byte own-named file (cannot be read into the child's address
+    //      space: `read_to_end` of the whole file comes before the decode limit) and multi-MiB files of one byte value
+    for (prog, mode) in [(fixed[1].clone(), Mode::Seq), (fixed[1].clone(), Mode::Par(2)), (fixed[3].clone(), Mode::Seq)] {
+        for (k, content) in [Content::Big, Content::Rep(0, 2 << 20), Content::Rep(0xff, 2 << 20), Content::Rep(0x61, 3 << 20)].into_iter().enumerate() {
+            if k > 0 && mode != Mode::Seq {
+                continue;
+            }
+            let mut j = base_job(prog.clone(), mode, Pol::Every(1), Some(1), "corpus:large-leftover");
+            j.pre = vec![PreFile::Own(3_000_000_000_000, content), PreFile::Own(5, Content::Valid { idx: 1, total: 4, rest: Rest::plain(), mu: Mu::None })];
+            jobs.push(j);
+        }
+    }
+    // (1g) the configured directory is the EMPTY path (current directory = scratch directory) or a RELATIVE path:
+    //      both are usable directories — the run is transparent and leaves nothing of its own behind
+    {
+        let n0 = jobs.len();
+        let (p2, m) = insert_marker(&fixed[1], 3).expect("marker");
+        for dirkind in [DirKind::Empty, DirKind::Rel] {
+            for (prog, mode) in [(fixed[1].clone(), Mode::Seq), (fixed[1].clone(), Mode::Par(2)), (fixed[3].clone(), Mode::Seq), (fixed[5].clone(), Mode::Par(2)), (fixed[5].clone(), Mode::Seq)] {
+                for pol in [Pol::Every(1), Pol::Time(0)] {
+                    for max in [None, Some(1)] {
+                        for first in [First::None, First::Full] {
+                            let mut j = base_job(prog.clone(), mode, pol, max, "corpus:directory-is-the-empty-or-a-relative-path");
+                            j.dirkind = dirkind;
+                            j.first = first;
+                            jobs.push(j);
+                        }
+                    }
+                }
+            }
+            for (pol, max) in [(Pol::Every(1), None), (Pol::Barrier, Some(1)), (Pol::Time(0), Some(0))] {
+                let mut j = base_job(p2.clone(), Mode::Seq, pol, max, "corpus:directory-is-the-empty-or-a-relative-path");
+                j.dirkind = dirkind;
+                j.first = First::Crash(m);
+                jobs.push(j);
+                let mut j = base_job(fixed[1].clone(), Mode::Seq, pol, max, "corpus:directory-is-the-empty-or-a-relative-path");
+                j.dirkind = dirkind;
+                j.pre = vec![PreFile::Own(1000, Content::Valid { idx: 1, total: 4, rest: Rest::plain(), mu: Mu::None }), PreFile::Named("notes.txt".into(), vec![1, 2, 3])];
+                jobs.push(j);
+            }
+        }
+        blocks.push(format!("checkpoint directory = the empty path (cwd = scratch directory) / a relative path: 5 program-mode pairs x {{every:1,time:0}} x retention {{None,1}} x earlier run {{none,full}}, crash + recovery, pre-existing files = {} jobs (in the child: they need their own current directory)", jobs.len() - n0));
+    }
+    // (1h) STORE OPERATIONS THAT FAIL: an identity step whose closure RENAMES the checkpoint directory away while the
+    //      run is in progress — every later `save_checkpoint` (File::create) and the final `clear_checkpoints`
+    //      (read_dir) fail; the run must still return the plain result. At every position of three programs.
+    {
+        let n0 = jobs.len();
+        for prog in [&fixed[1], &fixed[4], &fixed[2]] {
+            for pos in 0..=prog.steps.len() {
+                let Some((p2, m)) = insert_marker(prog, pos) else { continue };
+                if !usable(&p2) || rows_at(&p2, m) == Some(0) {
+                    continue;
+                }
+                for (k, pol) in [Pol::Every(1), Pol::Barrier, Pol::Time(0), Pol::Hybrid(true, LONG)].into_iter().enumerate() {
+                    for max in [None, Some(1)] {
+                        let mut j = base_job(p2.clone(), Mode::Seq, pol, max, "exh:store-fails-mid-run");
+                        j.sab = Some(m);
+                        if max.is_some() {
+                            j.pre = vec![PreFile::Own(1000, Content::Valid { idx: 1, total: 4, rest: Rest::plain(), mu: Mu::None }), PreFile::Named("notes.txt".into(), vec![9])];
+                        }
+                        jobs.push(j);
+                    }
+                    if k < 2 {
+                        let mut j = base_job(p2.clone(), Mode::Par(2), pol, None, "exh:store-fails-mid-run");
+                        j.sab = Some(m);
+                        jobs.push(j);
+                    }
+                }
+            }
+        }
+        blocks.push(format!("the checkpoint directory is renamed away by a user closure at every step position of 3 fixed programs x {{every:1,barrier,time:0,hybrid}} x retention {{None,1}} (seq) + 2 policies (par:2): all later saves and the final clear fail = {} jobs", jobs.len() - n0));
+    }
+    // (1i) `run_collect::<T>` with a WRONG element type: both engines must return the same `Err`; the sequential
+    //      checkpointing engine returns it after its saves and before the clear (files stay), the parallel one saves
+    //      its "Failed" marker
+    for prog in [&fixed[0], &fixed[1], &fixed[2], &fixed[3], &fixed[4], &fixed[6], &fixed[7]] {
+        for mode in [Mode::Seq, Mode::Par(2)] {
+            for pol in [Pol::Every(1), Pol::Barrier] {
+                for first in [First::None, First::Full] {
+                    let mut j = base_job(prog.clone(), mode, pol, Some(3), "corpus:wrong-terminal-type");
+                    j.wrong_t = true;
+                    j.first = first;
+                    jobs.push(j);
+                }
+            }
+        }
+    }
+    // (1j) `ExecMode::Parallel {{ partitions: None }}` (the crate's default): the partition count is the planner's
+    //      suggestion, else `default_partitions` — resolved by TWO copies of the same expression in `run_collect`;
+    //      with and without `threads: Some(2)`. (1k) programs whose result depends on the partition count.
+    {
+        let n0 = jobs.len();
+        let nl = nonlocal_progs();
+        for prog in fixed.iter().chain(nl.iter()) {
+            for pol in [Pol::Barrier, Pol::Every(1)] {
+                for threads in [None, Some(2)] {
+                    let mut j = base_job(prog.clone(), Mode::Par(0), pol, Some(1), "corpus:partitions-none");
+                    j.parts_none = true;
+                    j.threads = threads;
+                    jobs.push(j);
+                }
+            }
+        }
+        for prog in &nl {
+            for mode in [Mode::Seq, Mode::Par(2), Mode::Par(3), Mode::Par(64)] {
+                for pol in [Pol::Barrier, Pol::Every(1)] {
+                    for first in [First::None, First::Full] {
+                        let mut j = base_job(prog.clone(), mode, pol, None, "corpus:slice-dependent-batches");
+                        j.first = first;
+                        jobs.push(j);
+                    }
+                }
+            }
+        }
+        blocks.push(format!("{} fixed + {} slice-dependent programs with partitions: None x {{barrier,every:1}} x threads {{None,2}}; the slice-dependent programs (map_batches rev / sumall before the first barrier, compared as exact sequences) x {{seq,par:2,par:3,par:64}} x 2 policies x earlier run {{none,full}} = {} jobs", fixed.len(), nl.len(), jobs.len() - n0));
+    }
+    // (1l) an `Err` at a node in the MIDDLE of the chain: the saves made before the failing node stay, none after it
+    for prog in err_mid_progs() {
+        for mode in [Mode::Seq, Mode::Par(2)] {
+            for pol in [Pol::Every(1), Pol::Barrier, Pol::Time(0)] {
+                for max in [None, Some(1)] {
+                    for first in [First::None, First::Full] {
+                        let mut j = base_job(prog.clone(), mode, pol, max, "corpus:err-in-the-middle-of-the-chain");
+                        j.first = first;
+                        jobs.push(j);
+                    }
+                }
+            }
+        }
+    }
+    // (1m) policy PARAMETERS at and beyond their edges (every:n around and far beyond the chain length; intervals of
+    //      1 s, 1 h, i64::MAX, u64::MAX-1, u64::MAX seconds; retention usize::MAX), both modes, in the watchdog child
+    {
+        let n0 = jobs.len();
+        let mut k = 0usize;
+        for prog in [&fixed[1], &fixed[3], &fixed[2]] {
+            for pol in extreme_pols(false) {
+                for mode in [Mode::Seq, Mode::Par(2)] {
+                    k += 1;
+                    let mut j = base_job(prog.clone(), mode, pol, EXTREME_MAX[k % EXTREME_MAX.len()], "exh:policy-parameter-edges");
+                    j.force_child = true;
+                    jobs.push(j);
+                }
+            }
+        }
+        let (p2, m) = insert_marker(&fixed[1], 3).expect("marker");
+        for pol in extreme_pols(true) {
+            k += 1;
+            let mut j = base_job(p2.clone(), Mode::Seq, pol, EXTREME_MAX[k % EXTREME_MAX.len()], "exh:policy-parameter-edges");
+            j.first = First::Crash(m);
+            j.force_child = true;
+            jobs.push(j);
+            // the same parameters in a run that returns `Err` (files stay and are compared)
+            let mut j = base_job(fixed[5].clone(), if k % 2 == 0 { Mode::Seq } else { Mode::Par(2) }, pol, EXTREME_MAX[k % EXTREME_MAX.len()], "exh:policy-parameter-edges");
+            j.force_child = true;
+            jobs.push(j);
+        }
+        blocks.push(format!("policy parameter edges: every:{{4,5,6,7,usize::MAX-1,usize::MAX}}, time / hybrid intervals {{1,3600,i64::MAX,u64::MAX-1,u64::MAX}} s, retention {{None,0,1,usize::MAX}} x 3 fixed programs x {{seq,par:2}}, + crash/recovery and an Err program under the timing-free ones = {} jobs (in the child)", jobs.len() - n0));
     }
 
     // (2a) exhaustive: fixed programs × every policy × every retention × {seq, par 2, par 3}, fresh directory
@@ -1057,9 +1619,11 @@ fn plan_jobs(rng: &mut Rng, tier: Tier, blocks: &mut Vec<String>) -> Vec<Job> {
             job.mu = Mu::Trunc(o);
             jobs.push(job);
         }
-        for i in 0..budget(12, 125) {
+        for i in 0..125 {
             for b in 0..8u8 {
-                if tier == Tier::Quick && b % 3 != 0 {
+                // quick: the lowest and the highest bit of EVERY byte of the file (the last byte is the un-checksummed
+                // progress_percent); thorough: every bit
+                if tier == Tier::Quick && b != 0 && b != 7 {
                     continue;
                 }
                 let mut job = base_job(p2.clone(), Mode::Seq, Pol::Barrier, Some(1), "exh:bit-flips");
@@ -1068,23 +1632,33 @@ fn plan_jobs(rng: &mut Rng, tier: Tier, blocks: &mut Vec<String>) -> Vec<Job> {
                 jobs.push(job);
             }
         }
-        blocks.push(format!("newest file left by a crashed run truncated at every offset 0..={limit}; bit flips in its first {} bytes = {} jobs (recovery run in the child)", budget(12, 125), jobs.len() - n0));
+        blocks.push(format!("newest file left by a crashed run truncated at every offset 0..={limit}; bit flips (quick: bits 0 and 7, else all) in every byte 0..125 = {} jobs (recovery run in the child)", jobs.len() - n0));
     }
 
     // (3) random
     let o = GenOpts { max_steps: 7, max_rows: 10, barriers: true, joins: true, globals: true, nonlocal_batches: false };
+    let o_nl = GenOpts { nonlocal_batches: true, ..o };
+    let timing_free = extreme_pols(true);
     let n = budget(1500, 30000);
     for _ in 0..n {
-        let prog = gen_usable_prog(rng, &o);
+        // a fifth of the programs may contain slice-dependent chunk functions before their first barrier
+        let opts = if rng.chance(1, 5) { &o_nl } else { &o };
+        let prog = gen_usable_prog(rng, opts);
         let mode = gen_mode(rng, prog.src.len());
-        let pol = *rng.pick(ALL_POLS);
-        let max = *rng.pick(ALL_MAX);
+        let pol = if rng.chance(1, 6) { *rng.pick(&timing_free) } else { *rng.pick(ALL_POLS) };
+        let max = if rng.chance(1, 8) { Some(usize::MAX) } else { *rng.pick(ALL_MAX) };
         let mut job = base_job(prog, mode, pol, max, "rnd");
         job.rec = !rng.chance(1, 6);
         if rng.chance(1, 14) {
             job.en = if rng.chance(1, 2) { En::Off } else { En::NoCfg };
         }
-        match rng.below(8) {
+        if mode != Mode::Seq {
+            job.parts_none = rng.chance(1, 6);
+            if rng.chance(1, 8) {
+                job.threads = Some(1 + rng.below(3));
+            }
+        }
+        match rng.below(11) {
             0 | 1 => job.tag = "rnd:fresh",
             2 | 3 => {
                 job.pre = gen_pre(rng);
@@ -1110,6 +1684,51 @@ fn plan_jobs(rng: &mut Rng, tier: Tier, blocks: &mut Vec<String>) -> Vec<Job> {
                     job.tag = "rnd:fresh";
                 }
             }
+            8 => {
+                // the store stops working mid-run
+                if let Some((p2, j)) = with_crash(rng, &job.prog.clone()) {
+                    job.prog = p2;
+                    job.sab = Some(j);
+                    if rng.chance(1, 3) {
+                        job.pre = gen_pre(rng);
+                    }
+                    if rng.chance(1, 4) {
+                        job.first = First::Full;
+                    }
+                    job.tag = "rnd:store-fails-mid-run";
+                } else {
+                    job.tag = "rnd:fresh";
+                }
+            }
+            9 => {
+                if rng.chance(1, 2) {
+                    job.wrong_t = true;
+                    if rng.chance(1, 2) {
+                        job.first = First::Full;
+                    }
+                    job.tag = "rnd:wrong-terminal-type";
+                } else if let Some(p2) = with_err_mid(rng, &job.prog.clone()) {
+                    job.prog = p2;
+                    if rng.chance(1, 2) {
+                        job.first = First::Full;
+                    }
+                    if rng.chance(1, 3) {
+                        job.pre = gen_pre(rng);
+                    }
+                    job.tag = "rnd:err-in-the-middle-of-the-chain";
+                } else {
+                    job.tag = "rnd:fresh";
+                }
+            }
+            10 => {
+                job.dirkind = if rng.chance(1, 2) { DirKind::Empty } else { DirKind::Rel };
+                match rng.below(3) {
+                    0 => {}
+                    1 => job.first = First::Full,
+                    _ => job.pre = gen_pre(rng),
+                }
+                job.tag = "rnd:directory-is-the-empty-or-a-relative-path";
+            }
             _ => {
                 if let Some((p2, j)) = with_crash(rng, &job.prog.clone()) {
                     job.prog = p2;
@@ -1125,7 +1744,14 @@ fn plan_jobs(rng: &mut Rng, tier: Tier, blocks: &mut Vec<String>) -> Vec<Job> {
                 }
             }
         }
-        if job.pre.is_empty() && job.mu == Mu::None && job.add.is_empty() && rng.chance(1, 40) {
+        // whether rows reach the marker closure is decided with the one-slice reference interpreter: with a
+        // slice-dependent chunk function upstream that is only right in sequential mode
+        if (job.marker().is_some() || matches!(job.first, First::CrashBarrier { .. })) && job.has_nonlocal() && job.mode != Mode::Seq {
+            job.mode = Mode::Seq;
+            job.parts_none = false;
+            job.threads = None;
+        }
+        if job.pre.is_empty() && job.mu == Mu::None && job.add.is_empty() && job.sab.is_none() && job.dirkind == DirKind::Ok && rng.chance(1, 40) {
             job.dirkind = DirKind::File;
             job.tag = "rnd:directory-is-a-regular-file";
         }
@@ -1140,6 +1766,7 @@ fn plan_jobs(rng: &mut Rng, tier: Tier, blocks: &mut Vec<String>) -> Vec<Job> {
 struct PrepA {
     pid: String,
     len: usize,
+    mode_tok: String,
     /// `pre=` token of the request
     pre_tok: String,
     /// names present before the earlier run
@@ -1149,6 +1776,7 @@ struct PrepA {
 struct Prepared {
     pid: String,
     len: usize,
+    mode_tok: String,
     pre_tok: String,
     /// first-phase part of the answer (with trailing ` || `), empty if there is no first run
     first_ans: String,
@@ -1160,79 +1788,107 @@ struct Prepared {
     before: BTreeMap<String, Ent>,
 }
 
-fn place_pre(job: &Job, pid: &str, dir: &Path) -> String {
+/// `None`: the scratch file system refused a write (full / gone) — the job is dropped, not judged
+fn place_pre(job: &Job, pid: &str, dir: &Path) -> Option<String> {
     let mut toks = vec![];
     for f in &job.pre {
         match f {
             PreFile::Own(stamp, content) => {
                 let name = format!("checkpoint_{pid}_{stamp}.bin");
-                let bytes = match content {
-                    Content::Raw(b) => b.clone(),
-                    Content::Valid { idx, total, mu } => {
+                let path = dir.join(&name);
+                match content {
+                    Content::Raw(b) => {
+                        std::fs::write(&path, b).ok()?;
+                        toks.push(format!("own.{stamp}:{}", hex(b)));
+                    }
+                    Content::Rep(byte, n) => {
+                        std::fs::write(&path, vec![*byte; *n]).ok()?;
+                        toks.push(format!("own.{stamp}:REP{byte:02x}x{n}"));
+                    }
+                    Content::Big => {
+                        let f = std::fs::File::create(&path).ok()?;
+                        f.set_len(BIG_FILE_LEN).ok()?;
+                        toks.push(format!("own.{stamp}:BIG"));
+                    }
+                    Content::Valid { idx, total, rest, mu } => {
                         // a genuine record, written by the real save_checkpoint into a side directory
-                        let side = dir.join("..").join(format!("side_{}", std::process::id()));
-                        let _ = std::fs::create_dir_all(&side);
-                        let mut m = probe_manager(&side).expect("side manager");
-                        let ck = compute_checksum(format!("{pid}:{idx}:{stamp}:1").as_bytes());
+                        let side = dir.parent()?.join(format!("side_{}", std::process::id()));
+                        std::fs::create_dir_all(&side).ok()?;
+                        let mut m = probe_manager(&side)?;
+                        let ck = compute_checksum(format!("{pid}:{idx}:{stamp}:{}", rest.pc).as_bytes());
                         let st = CheckpointState {
                             pipeline_id: pid.to_string(),
                             completed_node_index: *idx,
                             timestamp: *stamp,
-                            partition_count: 1,
+                            partition_count: rest.pc,
                             checksum: ck,
-                            exec_mode: "sequential".into(),
-                            metadata: CheckpointMetadata { total_nodes: *total, last_node_type: "Stateless".into(), progress_percent: 50 },
+                            exec_mode: rest.em.clone(),
+                            metadata: CheckpointMetadata { total_nodes: *total, last_node_type: rest.lnt.clone(), progress_percent: rest.pp },
                         };
-                        let path = m.save_checkpoint(&st).expect("side save");
-                        let b = std::fs::read(&path).expect("side read");
-                        let _ = std::fs::remove_file(&path);
-                        mu.apply(&b)
+                        let sp = m.save_checkpoint(&st).ok()?;
+                        let b = std::fs::read(&sp).ok()?;
+                        let _ = std::fs::remove_file(&sp);
+                        let b = mu.apply(&b);
+                        std::fs::write(&path, &b).ok()?;
+                        toks.push(format!("own.{stamp}:{}", hex(&b)));
                     }
-                };
-                std::fs::write(dir.join(&name), &bytes).expect("write pre file");
-                toks.push(format!("own.{stamp}:{}", hex(&bytes)));
+                }
             }
             PreFile::Named(t, bytes) => {
                 let name = t.replace("{}", pid);
-                std::fs::write(dir.join(&name), bytes).expect("write pre file");
+                std::fs::write(dir.join(&name), bytes).ok()?;
                 toks.push(format!("{}:{}", hex(name.as_bytes()), hex(bytes)));
             }
             PreFile::OwnDir(stamp) => {
                 let name = format!("checkpoint_{pid}_{stamp}.bin");
-                std::fs::create_dir_all(dir.join(&name)).expect("create pre dir");
-                std::fs::write(dir.join(&name).join("inner.txt"), b"inside").expect("write inner file");
+                std::fs::create_dir_all(dir.join(&name)).ok()?;
+                std::fs::write(dir.join(&name).join("inner.txt"), b"inside").ok()?;
                 toks.push(format!("own.{stamp}:DIR"));
             }
             PreFile::NamedDir(t) => {
                 let name = t.replace("{}", pid);
-                std::fs::create_dir_all(dir.join(&name)).expect("create pre dir");
-                std::fs::write(dir.join(&name).join("inner.txt"), b"inside").expect("write inner file");
+                std::fs::create_dir_all(dir.join(&name)).ok()?;
+                std::fs::write(dir.join(&name).join("inner.txt"), b"inside").ok()?;
                 toks.push(format!("{}:DIR", hex(name.as_bytes())));
             }
         }
     }
-    if toks.is_empty() { "-".into() } else { toks.join(",") }
+    Some(if toks.is_empty() { "-".into() } else { toks.join(",") })
+}
+
+fn remove_scratch(dir: &Path) {
+    for d in [dir.to_path_buf(), moved_path(dir)] {
+        if d.is_dir() {
+            let _ = std::fs::remove_dir_all(&d);
+        } else {
+            let _ = std::fs::remove_file(&d);
+        }
+    }
 }
 
 /// phase A: the scratch path (a directory, or a regular file for `dir=file`) and the `pre` entries
 fn prepare_a(job: &Job, dir: &Path) -> Option<PrepA> {
-    let (len, pid) = pipeline_id(job)?;
+    let info = plan_info(job)?;
     match job.dirkind {
-        DirKind::Ok => std::fs::create_dir_all(dir).ok()?,
+        DirKind::Ok | DirKind::Empty | DirKind::Rel => std::fs::create_dir_all(dir).ok()?,
         DirKind::File => {
             assert!(job.pre.is_empty() && job.add.is_empty() && job.mu == Mu::None, "dir=file jobs have no entries");
             std::fs::write(dir, FILE_AS_DIR_CONTENT).ok()?
         }
     }
-    let pre_tok = place_pre(job, &pid, dir);
-    Some(PrepA { pid, len, pre_tok, before_first: listing(dir).keys().cloned().collect() })
+    let Some(pre_tok) = place_pre(job, &info.pid, dir) else {
+        remove_scratch(dir);
+        return None;
+    };
+    Some(PrepA { pid: info.pid, len: info.len, mode_tok: info.mode_tok, pre_tok, before_first: listing(dir).keys().cloned().collect() })
 }
 
 /// phase B (after the earlier run, if any): the damage to the newest own FILE, the foreign files
-fn prepare_b(job: &Job, a: PrepA, dir: &Path, first: Option<String>) -> Prepared {
+fn prepare_b(job: &Job, a: PrepA, dir: &Path, first: Option<String>) -> Option<Prepared> {
     let mut first_ans = String::new();
     let mut first_res = None;
     let mut first_created = BTreeSet::new();
+    let mut ok = true;
     if let Some(f) = first {
         first_res = Some(f.split(" own=").next().unwrap_or("").to_string());
         first_ans = format!("{f} || ");
@@ -1240,19 +1896,23 @@ fn prepare_b(job: &Job, a: PrepA, dir: &Path, first: Option<String>) -> Prepared
         first_created = now.keys().filter(|n| !a.before_first.contains(*n)).cloned().collect();
         // damage the newest own regular file
         if job.mu != Mu::None {
-            if let Some(n) = newest_own(&a.pid, now.iter().filter(|(_, e)| e.is_file()).map(|(n, _)| n.clone())) {
+            if let Some(n) = newest_own(&a.pid, now.iter().filter(|(_, e)| matches!(e, Ent::File(_))).map(|(n, _)| n.clone())) {
                 let path = dir.join(&n);
                 let c = std::fs::read(&path).unwrap_or_default();
-                std::fs::write(&path, job.mu.apply(&c)).expect("mutate");
+                ok &= std::fs::write(&path, job.mu.apply(&c)).is_ok();
             }
         }
     }
     for a in &job.add {
         if !dir.join(a).exists() {
-            std::fs::write(dir.join(a), b"").expect("add foreign");
+            ok &= std::fs::write(dir.join(a), b"").is_ok();
         }
     }
-    Prepared { pid: a.pid, len: a.len, pre_tok: a.pre_tok, first_ans, first_res, first_created, before: listing(dir) }
+    if !ok {
+        remove_scratch(dir);
+        return None;
+    }
+    Some(Prepared { pid: a.pid, len: a.len, mode_tok: a.mode_tok, pre_tok: a.pre_tok, first_ans, first_res, first_created, before: listing(dir) })
 }
 
 fn request(job: &Job, prep: &Prepared) -> String {
@@ -1263,13 +1923,10 @@ fn request(job: &Job, prep: &Prepared) -> String {
         First::CrashBarrier { marker, .. } => format!("crashb:{marker}"),
     };
     let add = if job.add.is_empty() { "-".to_string() } else { job.add.iter().map(|a| hex(a.as_bytes())).collect::<Vec<_>>().join(",") };
-    let body = job.prog.request(&job.mode.enc());
+    let body = job.prog.request(&prep.mode_tok);
     format!(
-        "CKPT dir={} pol={} max={} rec={} first={first} mut={} add={add} pre={} {}",
-        match job.dirkind {
-            DirKind::Ok => "ok",
-            DirKind::File => "file",
-        },
+        "CKPT dir={} pol={} max={} rec={} first={first} mut={} add={add} pre={} ty={} sab={} {}",
+        job.dirkind.enc(),
         match job.en {
             En::On => job.pol.enc(),
             En::Off => format!("off/{}", job.pol.enc()),
@@ -1279,6 +1936,8 @@ fn request(job: &Job, prep: &Prepared) -> String {
         if job.rec { "T" } else { "F" },
         if job.first == First::None { "none".to_string() } else { job.mu.enc() },
         prep.pre_tok,
+        if job.wrong_t { "wrong" } else { "ok" },
+        job.sab.map_or("none".to_string(), |j| j.to_string()),
         body.strip_prefix("PIPE ").unwrap_or(&body)
     )
 }
@@ -1318,6 +1977,33 @@ fn evaluate(cx: &mut Ctx, job: &Job, prep: &Prepared, dir: &Path, final_ans: &st
     cx.count(&format!("config:{:?}", job.en));
     cx.count(&format!("directory:{:?}", job.dirkind));
     cx.count(&format!("chain-len:{}", prep.len));
+    if job.parts_none {
+        cx.count(&format!("partitions:None(resolved:{})", prep.mode_tok));
+    }
+    if job.threads.is_some() {
+        cx.count("threads:Some");
+    }
+    if job.wrong_t {
+        cx.count("terminal-type:wrong");
+    }
+    if job.sab.is_some() {
+        cx.count(if effective_dir(dir) != dir { "store-fails-mid-run:directory-renamed-away" } else { "store-fails-mid-run:closure-did-not-fire" });
+    }
+    if job.has_nonlocal() {
+        cx.count("prog:slice-dependent-batch-fn");
+    }
+    if job.force_child {
+        cx.count("final-run:in-child(forced)");
+    }
+    match job.pol {
+        Pol::Every(n) if n > 3 => cx.count("policy-parameter:every>3"),
+        Pol::Time(s) | Pol::Hybrid(_, s) if s > LONG => cx.count("policy-parameter:huge-interval"),
+        Pol::Time(s) | Pol::Hybrid(_, s) if s != 0 && s < LONG => cx.count("policy-parameter:short-interval"),
+        _ => {}
+    }
+    if job.max == Some(usize::MAX) {
+        cx.count("retention:usize::MAX");
+    }
     if job.prog.has_join() {
         cx.count("prog:has-join");
     }
@@ -1345,6 +2031,10 @@ fn evaluate(cx: &mut Ctx, job: &Job, prep: &Prepared, dir: &Path, final_ans: &st
         match f {
             PreFile::OwnDir(_) => cx.count("pre:own-named-subdirectory"),
             PreFile::NamedDir(_) => cx.count("pre:other-subdirectory"),
+            PreFile::Own(_, Content::Big) => cx.count("pre:own-file-too-large-to-read"),
+            PreFile::Own(_, Content::Rep(..)) => cx.count("pre:own-file-multi-MiB"),
+            PreFile::Own(_, Content::Valid { rest, mu: Mu::None, .. }) if *rest != Rest::plain() => cx.count("pre:valid-record-with-edge-fields"),
+            PreFile::Own(_, Content::Valid { rest, .. }) if rest.pp > 100 => cx.count("pre:valid-record-progress>100"),
             _ => {}
         }
     }
@@ -1362,12 +2052,22 @@ fn evaluate(cx: &mut Ctx, job: &Job, prep: &Prepared, dir: &Path, final_ans: &st
     }
 
     // ── oracle 1: transparency — the same pipeline without checkpointing, and the plain-vector reference
-    let plain = pipe::outcome_answer(&run_once(job, None, false), canon);
+    let plain = pipe::outcome_answer(&run_once(job, None, Arm::No), canon);
     let reference = pipe::ref_answer(&pipe::reference(&job.prog), canon);
-    if plain != reference {
+    if job.wrong_t {
+        // the plain engine asked for a wrong element type: `Err("terminal type mismatch")` whenever the run gets that far
+        if reference.starts_with("OK ") && plain != "ERR other:terminal_type_mismatch" {
+            cx.oracle_fail(idx, "plain-run-with-wrong-terminal-type-does-not-fail-with-type-mismatch", format!("plain={plain}"));
+        }
+    } else if job.has_nonlocal() && job.mode != Mode::Seq {
+        // slice-dependent chunk functions: the result depends on the partitioning by design; the plain-vector reference
+        // (one slice) does not apply — the model (which splits like `VecOps::split`) and the plain run are the yardstick
+        cx.count("reference-not-applicable:slice-dependent-batches-in-parallel-mode");
+    } else if plain != reference {
         cx.oracle_fail(idx, "plain-run-differs-from-reference", format!("plain={plain} reference={reference}"));
     }
-    let hostile_dir = job.needs_child() || job.first != First::None;
+    // does the run face anything it did not write itself in this very run?
+    let hostile_dir = !job.pre.is_empty() || job.mu != Mu::None || job.first != First::None;
     let unusable = job.dirkind == DirKind::File && job.en == En::On;
     if unusable {
         // outside the property's precondition (the checkpoint directory cannot be created): the run either fails
@@ -1407,7 +2107,7 @@ fn evaluate(cx: &mut Ctx, job: &Job, prep: &Prepared, dir: &Path, final_ans: &st
         }
     }
 
-    let after = listing(dir);
+    let after = listing(&effective_dir(dir));
     if job.dirkind == DirKind::File {
         // the path is still the regular file it was
         if std::fs::read(dir).ok().as_deref() != Some(FILE_AS_DIR_CONTENT) {
@@ -1416,7 +2116,12 @@ fn evaluate(cx: &mut Ctx, job: &Job, prep: &Prepared, dir: &Path, final_ans: &st
         return;
     }
     // ── oracle 2: after success nothing of this pipeline's runs is left, nothing new exists
-    if res.starts_with("OK ") && job.en == En::On {
+    if res.starts_with("OK ") && job.en == En::On && job.sab.is_some() {
+        // the store was taken away mid-run (a precondition of "leaves none of its files behind" is violated): what
+        // had been saved before stays; the run itself must be unaffected (oracle 1)
+        cx.count("store-fails-mid-run:successful-run");
+    }
+    if res.starts_with("OK ") && job.en == En::On && job.sab.is_none() {
         // (a) "its files" in the narrow sense: whatever this run or the earlier run of the same pipeline created
         let left: Vec<&String> = after.keys().filter(|n| !prep.before.contains_key(*n) || prep.first_created.contains(*n)).collect();
         if !left.is_empty() {
@@ -1454,7 +2159,7 @@ fn in_phase(job: &Job, phase: &str) -> bool {
 
 /// run one phase (`first` = the earlier run, `final` = the run proper) of the listed jobs in watchdog children;
 /// returns answers by job index
-fn run_children(phase: &str, seed: u64, tier: Tier, root: &Path, todo: &BTreeSet<usize>) -> BTreeMap<usize, String> {
+fn run_children(phase: &str, seed: u64, tier: Tier, root: &Path, todo: &BTreeSet<usize>, clock_marks: &mut BTreeSet<usize>) -> BTreeMap<usize, String> {
     let mut answers: BTreeMap<usize, String> = BTreeMap::new();
     let Some(&last) = todo.iter().next_back() else { return answers };
     let exe = std::env::current_exe().expect("current_exe");
@@ -1465,6 +2170,7 @@ fn run_children(phase: &str, seed: u64, tier: Tier, root: &Path, todo: &BTreeSet
     };
     let mut start = *todo.iter().next().unwrap();
     let mut spawns = 0;
+    let mut not_started = 0;
     while start <= last && spawns < 200 {
         spawns += 1;
         let mut child = Command::new("sh")
@@ -1494,6 +2200,7 @@ fn run_children(phase: &str, seed: u64, tier: Tier, root: &Path, todo: &BTreeSet
         let mut current: Option<usize> = None;
         let mut hung = false;
         let mut done = false;
+        let mut ready = false;
         loop {
             match rx.recv_timeout(Duration::from_secs(CHILD_WATCHDOG_S)) {
                 Ok(line) => {
@@ -1502,9 +2209,15 @@ fn run_children(phase: &str, seed: u64, tier: Tier, root: &Path, todo: &BTreeSet
                         done = true;
                         continue;
                     }
+                    if k == "READY" {
+                        ready = true;
+                        continue;
+                    }
                     let Ok(k) = k.parse::<usize>() else { continue };
                     if a == "START" {
                         current = Some(k);
+                    } else if a == "CLOCK" {
+                        clock_marks.insert(k);
                     } else {
                         answers.insert(k, a.to_string());
                         current = None;
@@ -1522,6 +2235,16 @@ fn run_children(phase: &str, seed: u64, tier: Tier, root: &Path, todo: &BTreeSet
         let _ = reader.join();
         if status.and_then(|s| s.code()) == Some(2) {
             panic!("ibh child c11: set-up failure (exit 2)");
+        }
+        if !ready {
+            // the child never got as far as its first line (`ulimit` / `exec` failed, the binary was replaced, the
+            // machine could not fork): that says nothing about the code under test — try again, then give up loudly
+            not_started += 1;
+            if not_started >= 5 {
+                panic!("ibh child c11: the child process could not be started {not_started} times (status {status:?})");
+            }
+            std::thread::sleep(Duration::from_millis(500));
+            continue;
         }
         if done {
             break;
@@ -1566,6 +2289,11 @@ pub fn child(args: &[String]) -> i32 {
     let mut blocks = vec![];
     let jobs = plan_jobs(&mut cx.rng, tier, &mut blocks);
     let out = std::io::stdout();
+    {
+        let mut o = out.lock();
+        let _ = writeln!(o, "READY");
+        let _ = o.flush();
+    }
     for (k, job) in jobs.iter().enumerate().skip(start) {
         if !in_phase(job, phase) {
             continue;
@@ -1574,14 +2302,21 @@ pub fn child(args: &[String]) -> i32 {
         if !dir.is_dir() {
             continue; // the parent could not prepare this job
         }
-        let Some((_, pid)) = pipeline_id(job) else { continue };
+        let Some(PlanInfo { pid, .. }) = plan_info(job) else { continue };
         {
             let mut o = out.lock();
             let _ = writeln!(o, "{k} START");
             let _ = o.flush();
         }
+        CLOCK_ANOMALY.store(false, Ordering::SeqCst);
         let a = if phase == "first" { run_first(job, &pid, &dir) } else { run_final(job, &pid, &dir) };
+        if job.dirkind.needs_cwd() {
+            let _ = std::env::set_current_dir(root);
+        }
         let mut o = out.lock();
+        if CLOCK_ANOMALY.load(Ordering::SeqCst) {
+            let _ = writeln!(o, "{k} CLOCK");
+        }
         let _ = writeln!(o, "{k} {a}");
         let _ = o.flush();
     }
@@ -1591,76 +2326,176 @@ pub fn child(args: &[String]) -> i32 {
     0
 }
 
+/// what one pass over a set of jobs produced
+struct Pass {
+    preps: BTreeMap<usize, Prepared>,
+    answers: BTreeMap<usize, String>,
+    /// jobs during which the wall clock stepped
+    clock: BTreeSet<usize>,
+    not_preparable: usize,
+    children: (usize, usize),
+}
+
+fn wall_ms() -> u64 {
+    SystemTime::now().duration_since(UNIX_EPOCH).map(|d| d.as_millis() as u64).unwrap_or(0)
+}
+
+/// phases A..B' for the jobs `which`, each in the scratch directory `root/<job index>`
+fn execute(seed: u64, tier: Tier, jobs: &[Job], which: &BTreeSet<usize>, root: &Path) -> Pass {
+    let mut pass = Pass { preps: BTreeMap::new(), answers: BTreeMap::new(), clock: BTreeSet::new(), not_preparable: 0, children: (0, 0) };
+    let _ = std::fs::create_dir_all(root);
+    // phase A: scratch path and `pre` entries of every job; the earlier runs that start from an EMPTY directory
+    // in-process
+    let mut preps_a: BTreeMap<usize, PrepA> = BTreeMap::new();
+    let mut firsts: BTreeMap<usize, String> = BTreeMap::new();
+    let mut todo_first: BTreeSet<usize> = BTreeSet::new();
+    for &k in which {
+        let job = &jobs[k];
+        let dir = root.join(k.to_string());
+        match prepare_a(job, &dir) {
+            Some(a) => {
+                if job.first_in_child() {
+                    todo_first.insert(k);
+                } else if job.first != First::None {
+                    CLOCK_ANOMALY.store(false, Ordering::SeqCst);
+                    firsts.insert(k, run_first(job, &a.pid, &dir));
+                    if CLOCK_ANOMALY.load(Ordering::SeqCst) {
+                        pass.clock.insert(k);
+                    }
+                }
+                preps_a.insert(k, a);
+            }
+            None => pass.not_preparable += 1,
+        }
+    }
+    // phase A': the earlier runs over pre-existing (possibly hostile) entries, in children
+    let child_firsts = run_children("first", seed, tier, root, &todo_first, &mut pass.clock);
+    for k in &todo_first {
+        firsts.insert(*k, child_firsts.get(k).cloned().unwrap_or_else(|| "ABORT".to_string()));
+    }
+    // phase B: damage + foreign files; the benign final runs in-process
+    let mut todo: BTreeSet<usize> = BTreeSet::new();
+    for (k, a) in preps_a {
+        let job = &jobs[k];
+        let dir = root.join(k.to_string());
+        match prepare_b(job, a, &dir, firsts.remove(&k)) {
+            Some(p) => {
+                if job.needs_child() {
+                    todo.insert(k);
+                } else {
+                    CLOCK_ANOMALY.store(false, Ordering::SeqCst);
+                    pass.answers.insert(k, run_final(job, &p.pid, &dir));
+                    if CLOCK_ANOMALY.load(Ordering::SeqCst) {
+                        pass.clock.insert(k);
+                    }
+                }
+                pass.preps.insert(k, p);
+            }
+            None => pass.not_preparable += 1,
+        }
+    }
+    // phase B': the final runs that face damaged / hostile / foreign directory content, in children
+    let child_answers = run_children("final", seed, tier, root, &todo, &mut pass.clock);
+    for k in &todo {
+        pass.answers.insert(*k, child_answers.get(k).cloned().unwrap_or_else(|| "ABORT".to_string()));
+    }
+    pass.children = (todo_first.len(), todo.len());
+    pass
+}
+
+/// a verdict that a starved machine can produce on correct code (watchdog expiry, a child killed from outside):
+/// believed only when the job, redone from scratch, ends the same way
+fn load_suspect(prep: &Prepared, ans: &str) -> bool {
+    let bad = |a: &str| matches!(first_token(a), "HANG" | "ABORT");
+    bad(ans) || prep.first_res.as_deref().is_some_and(bad)
+}
+
 pub fn run(cx: &mut Ctx) {
     let mut blocks = vec![];
     let jobs = plan_jobs(&mut cx.rng, cx.tier, &mut blocks);
     cx.exhaustive_blocks.extend(blocks);
     let root = tmproot();
 
-    // phase A: scratch path and `pre` entries of every job; the earlier runs that start from an EMPTY directory
-    // in-process
-    let mut preps_a: Vec<Option<PrepA>> = Vec::with_capacity(jobs.len());
-    let mut firsts: BTreeMap<usize, String> = BTreeMap::new();
-    let mut todo_first: BTreeSet<usize> = BTreeSet::new();
-    for (k, job) in jobs.iter().enumerate() {
-        let dir = root.path().join(k.to_string());
-        let a = prepare_a(job, &dir);
-        if let Some(a) = &a {
-            if job.first_in_child() {
-                todo_first.insert(k);
-            } else if job.first != First::None {
-                firsts.insert(k, run_first(job, &a.pid, &dir));
+    // the planted stamps (and the model's scripted clock) assume a sane wall clock; without one the jobs that compare
+    // planted with written stamps are not run
+    let now = wall_ms();
+    let clock_sane = now > CLOCK_WINDOW_MS.0 && now < CLOCK_WINDOW_MS.1;
+    let all: BTreeSet<usize> = (0..jobs.len()).filter(|k| clock_sane || !jobs[*k].has_planted_stamp()).collect();
+    if !clock_sane {
+        cx.notes.push(format!("wall clock ({now} ms since the epoch) outside the window the planted stamps assume: {} jobs with planted stamps skipped", jobs.len() - all.len()));
+    }
+
+    let mut pass = execute(cx.seed, cx.tier, &jobs, &all, &root.path().join("a"));
+
+    // confirm-by-re-execution: jobs that ended in HANG / ABORT, or during which the wall clock stepped, are redone
+    // from scratch (fresh directory); a load-induced verdict does not come back, a real one does
+    let suspects: Vec<usize> = pass.preps.iter().filter(|(k, p)| pass.clock.contains(*k) || pass.answers.get(*k).is_some_and(|a| load_suspect(p, a))).map(|(k, _)| *k).collect();
+    let mut dir_of: BTreeMap<usize, PathBuf> = BTreeMap::new();
+    if !suspects.is_empty() {
+        // bounded: a real defect comes back on the first few; a HANG costs a full watchdog period each time
+        let is_hang = |k: &usize| pass.answers.get(k).is_some_and(|a| first_token(a) == "HANG") || pass.preps[k].first_res.as_deref().is_some_and(|a| first_token(a) == "HANG");
+        let mut redo: BTreeSet<usize> = suspects.iter().filter(|k| !is_hang(k)).copied().take(64).collect();
+        redo.extend(suspects.iter().filter(|k| is_hang(k)).copied().take(6));
+        let again = execute(cx.seed, cx.tier, &jobs, &redo, &root.path().join("b"));
+        let (mut reproduced, mut vanished, mut dropped) = (0, 0, 0);
+        for k in &redo {
+            let was_load = pass.answers.get(k).is_some_and(|a| load_suspect(&pass.preps[k], a));
+            match (again.preps.get(k), again.answers.get(k)) {
+                (Some(p2), Some(a2)) if !again.clock.contains(k) => {
+                    if was_load && load_suspect(p2, a2) {
+                        reproduced += 1; // keep the first verdict
+                    } else {
+                        if was_load {
+                            vanished += 1;
+                        }
+                        dir_of.insert(*k, root.path().join("b").join(k.to_string()));
+                    }
+                }
+                _ => {
+                    if !was_load {
+                        // the clock stepped again (or the job could not be prepared again): not judged
+                        dropped += 1;
+                        pass.preps.remove(k);
+                    }
+                }
             }
-        } else {
-            cx.count("job-not-preparable");
         }
-        preps_a.push(a);
-    }
-    // phase A': the earlier runs over pre-existing (possibly hostile) entries, in children
-    let child_firsts = run_children("first", cx.seed, cx.tier, root.path(), &todo_first);
-    for k in &todo_first {
-        firsts.insert(*k, child_firsts.get(k).cloned().unwrap_or_else(|| "ABORT".to_string()));
-    }
-    // phase B: damage + foreign files; the benign final runs in-process
-    let mut preps: Vec<Option<Prepared>> = Vec::with_capacity(jobs.len());
-    let mut inproc: BTreeMap<usize, String> = BTreeMap::new();
-    let mut todo: BTreeSet<usize> = BTreeSet::new();
-    for (k, (job, a)) in jobs.iter().zip(preps_a).enumerate() {
-        let dir = root.path().join(k.to_string());
-        let prep = a.map(|a| prepare_b(job, a, &dir, firsts.remove(&k)));
-        if let Some(p) = &prep {
-            if job.needs_child() {
-                todo.insert(k);
-            } else {
-                inproc.insert(k, run_final(job, &p.pid, &dir));
+        let mut again = again;
+        for k in dir_of.keys() {
+            if let (Some(p2), Some(a2)) = (again.preps.remove(k), again.answers.remove(k)) {
+                pass.preps.insert(*k, p2);
+                pass.answers.insert(*k, a2);
             }
         }
-        preps.push(prep);
+        cx.notes.push(format!(
+            "{} jobs redone from scratch (HANG / ABORT verdict or a wall-clock step during the run): {reproduced} verdicts reproduced and kept, {vanished} HANG/ABORT verdicts did not come back (machine stall; the re-execution was judged), {dropped} dropped (clock stepped again)",
+            redo.len()
+        ));
+        cx.count_n("redone-from-scratch", redo.len() as u64);
     }
-    // phase B': the final runs that face damaged / hostile / foreign directory content, in children
-    let child_answers = run_children("final", cx.seed, cx.tier, root.path(), &todo);
 
     // phase C: cases and oracles, in job order
     for (k, job) in jobs.iter().enumerate() {
-        let Some(prep) = &preps[k] else { continue };
-        let dir = root.path().join(k.to_string());
-        let ans = if job.needs_child() {
-            child_answers.get(&k).cloned().unwrap_or_else(|| "ABORT".to_string())
-        } else {
-            inproc.get(&k).cloned().unwrap_or_else(|| "ABORT".to_string())
-        };
-        evaluate(cx, job, prep, &dir, &ans);
-        if dir.is_dir() {
-            let _ = std::fs::remove_dir_all(&dir);
-        } else {
-            let _ = std::fs::remove_file(&dir);
+        let dir = dir_of.get(&k).cloned().unwrap_or_else(|| root.path().join("a").join(k.to_string()));
+        if let (Some(prep), Some(ans)) = (pass.preps.get(&k), pass.answers.get(&k)) {
+            evaluate(cx, job, prep, &dir, ans);
         }
+        remove_scratch(&root.path().join("a").join(k.to_string()));
+        remove_scratch(&root.path().join("b").join(k.to_string()));
+    }
+    if pass.not_preparable > 0 {
+        cx.count_n("job-not-preparable", pass.not_preparable as u64);
+        cx.notes.push(format!("{} jobs could not be prepared (planner error or the scratch file system refused a write) and were not run", pass.not_preparable));
+    }
+    let (r, c) = (HANG_RETRIES.load(Ordering::SeqCst), HANGS_CONFIRMED.load(Ordering::SeqCst));
+    if r > 0 {
+        cx.notes.push(format!("in-process watchdog: {r} re-executions of checkpoint-free runs after an expiry, {c} HANG verdicts confirmed"));
     }
     cx.notes.push(format!(
         "{} jobs; {} earlier runs and {} final runs in watchdog children (address-space limit {} MiB)",
         jobs.len(),
-        todo_first.len(),
-        todo.len(),
+        pass.children.0,
+        pass.children.1,
         CHILD_AS_LIMIT_KIB / 1024
     ));
 }
